@@ -10,11 +10,11 @@ import (
 
 type V string
 
-func N(n uint64) V      { return V(strconv.FormatUint(n, 10)) }
-func I(n int) V         { return V(strconv.Itoa(n)) } // caller guarantees n >= 0
-func Big(n *big.Int) V  { return V(n.String()) }
-func B(b []byte) V      { return V("x" + hex.EncodeToString(b)) }
-func S(s string) V      { return V(s) }
+func N(n uint64) V     { return V(strconv.FormatUint(n, 10)) }
+func I(n int) V        { return V(strconv.Itoa(n)) } // caller guarantees n >= 0
+func Big(n *big.Int) V { return V(n.String()) }
+func B(b []byte) V     { return V("x" + hex.EncodeToString(b)) }
+func S(s string) V     { return V(s) }
 func Bool(b bool) V {
 	if b {
 		return "1"
